@@ -101,7 +101,9 @@ theorem inv_p_start {cfg : Cfg} (hw : 1 ≤ cfg.nWorkers) {s s' : St} {i : Nat} 
             exact ⟨by omega, by omega, hcn hmm⟩
 
 theorem stepP_nowait_cons {s : St} {i : Nat} {r : List Nat} (hp : s.ppc = .nowait) (hq : s.resQ = i :: r) :
-    stepP s = some (receive { s with resQ := r } i) := by
+    stepP s = if s.cfg.exact ∧ ¬ s.cfg.mulP ∧
+        (receive { s with resQ := r } i).finished = (receive { s with resQ := r } i).total
+      then some (startCall (receive { s with resQ := r } i)) else some (receive { s with resQ := r } i) := by
   unfold stepP; simp only [hp, hq]
 
 theorem stepP_nowait_nil {s : St} (hp : s.ppc = .nowait) (hq : s.resQ = []) :
@@ -130,8 +132,28 @@ theorem inv_p_nowait {cfg : Cfg} (hw : 1 ≤ cfg.nWorkers) {s s' : St} (h : Inv 
   cases hq : s.resQ with
   | cons i r =>
     rw [stepP_nowait_cons hp hq] at hs
-    simp only [Option.some.injEq] at hs; subst hs
-    exact ⟨main_receive hm hq (Or.inl hp), by simp [hp]⟩
+    have hrm := main_receive hm hq (Or.inl hp)
+    split at hs
+    · -- `exact`: the caller closes the generator at the last item; the next call starts right away
+      rename_i hex
+      obtain ⟨_, hnm, hft⟩ := hex
+      simp only [Option.some.injEq] at hs; subst hs
+      have hmm : cfg.mulP = false := by
+        cases hc : cfg.mulP
+        · rfl
+        · rw [hM, hc] at hnm; exact absurd rfl hnm
+      have hle := finished_le hrm
+      simp only [receive_total, receive_dataCnt] at hft hle
+      unfold startCall
+      rw [receive_callsLeft]
+      have hb := bnd_of_quiet hw hrm (by simp only [receive_dataCnt]; omega)
+        (by simp only [receive_dataCnt, receive_total]; omega)
+        (no_notStarted hrm (by simp [hp])) (by intro _; simp [posted, hp])
+        (by intro hc; rw [hmm] at hc; cases hc) (Or.inl (by simp [joined, hp]))
+      rw [receive_callsLeft] at hb
+      exact inv_startCallGo hw _ _ hb
+    · simp only [Option.some.injEq] at hs; subst hs
+      exact ⟨hrm, by simp [hp]⟩
   | nil =>
     rw [stepP_nowait_nil hp hq] at hs
     by_cases h1 : s.next + 1 < s.total
